@@ -565,7 +565,7 @@ class Sim:
                 rec["result"] = real_psi(**kw)
             rec["refused"] = rec["result"] is None
             if cur is not None:
-                cur["attempts"].append((rec["dt"], rec["refused"], rec["injected"]))
+                cur["attempts"].append((rec["dt"], rec["refused"], rec["injected"], cur["n_screen"]))
                 cur["attempts_this_iter"] += 1
             h.ev("attempt", sim.stage, step, repr(rec["dt"]), rec["refused"], rec["injected"])
             if rec["refused"] and not rec["injected"]:
